@@ -31,6 +31,7 @@ ENGINES = {  # name -> number in Model/Engines.v
     "cli3": 39,
     "cli5": 40,
     "limiter": 35,
+    "payload": 41,
     "iostate": 36,
     "timerrt": 37,
     "hs": 38,
